@@ -304,6 +304,8 @@ type Frame struct {
 	protected []protectedObj
 	blockReach map[*ssa.BasicBlock]string
 	lastAtomicLoad map[string]string
+	localKey map[*ssa.Alloc]string
+	freeLocal map[*ssa.FreeVar]localRef
 }
 
 type protectedObj struct {
@@ -336,7 +338,7 @@ var frameCounter int
 func newFrame(q *Query, fn *ssa.Function, parent *Frame) *Frame {
 	frameCounter++
 	fr := &Frame{q: q, fn: fn, parent: parent, vals: map[ssa.Value]Val{}, edgeOut: map[*ssa.BasicBlock][]flow{},
-		blockReach: map[*ssa.BasicBlock]string{}, lastAtomicLoad: map[string]string{}, nonNilParams: map[*ssa.Parameter]bool{}, loops: map[*ssa.BasicBlock]*loopInfo{}, backEdge: map[[2]int]bool{}, callOrd: map[string]int{}, ghost: map[string]string{}}
+		blockReach: map[*ssa.BasicBlock]string{}, lastAtomicLoad: map[string]string{}, localKey: map[*ssa.Alloc]string{}, freeLocal: map[*ssa.FreeVar]localRef{}, nonNilParams: map[*ssa.Parameter]bool{}, loops: map[*ssa.BasicBlock]*loopInfo{}, backEdge: map[[2]int]bool{}, callOrd: map[string]int{}, ghost: map[string]string{}}
 	if parent == nil {
 		fr.prefix = "v"
 	} else {
@@ -981,6 +983,9 @@ func (fr *Frame) snapshotLocalsFor(st *State, skip func(a *ssa.Alloc) bool, ms *
 		for _, lc := range f.locals {
 			if allocEscapes(lc.ins) || (skip != nil && skip(lc.ins)) {
 				continue
+			}
+			if _, scalar := f.localKey[lc.ins]; scalar {
+				continue // not in the heap at all
 			}
 			elem := lc.ins.Type().(*types.Pointer).Elem()
 			for _, lf := range layoutOf(elem).leaves {
